@@ -419,12 +419,54 @@ fn drive_table(t: &Tab, rng: &mut StdRng, cases: usize, maxlen: usize, out: &mut
     }
 }
 
+/// Decoder inputs derived systematically from a few short inputs, for the table in force: the
+/// valid stream, EVERY truncation of it (down to the empty stream), extensions and garbage, each
+/// at every capacity 0..n+1 and through the allocating API, with the reference on the same event.
+fn drive_table_systematic(t: &Tab, rng: &mut StdRng, out: &mut dyn Write, events: &mut u64, calls: &mut u64) {
+    let mut emit = |e: Value, events: &mut u64, calls: &mut u64| {
+        *calls += e["runs"].as_array().map(|a| a.len()).unwrap_or(0) as u64;
+        writeln!(out, "{}", e).unwrap();
+        *events += 1;
+    };
+    let mut inputs: Vec<Vec<u8>> = vec![vec![], vec![rng.gen()], vec![0, 0, 0]];
+    inputs.push((0..3).map(|_| rng.gen()).collect());
+    inputs.push((0..5).map(|_| [0u8, 1, 0x80, 0xff, rng.gen()][rng.gen_range(0..5)]).collect());
+    for input in inputs {
+        set_case(&format!("huffman systematic input {:?}", input));
+        let probe = do_comp(t, &input, "compress", -1, false);
+        let comp = bytes_of(&probe["out"]);
+        let n = input.len() as i64;
+        let runs_for = |_: &[u8]| -> Vec<(&str, i64)> {
+            let mut r: Vec<(&str, i64)> = vec![("decompress", -1)];
+            r.extend((0..=n + 1).map(|c| ("decompress_into", c)));
+            r
+        };
+        let mut streams: Vec<Vec<u8>> = (0..=comp.len()).map(|k| comp[..k].to_vec()).collect();
+        for tail in [vec![0u8], vec![0xff], vec![rng.gen(), rng.gen()]] {
+            let mut e = comp.clone();
+            e.extend(tail);
+            streams.push(e);
+        }
+        streams.push((0..3).map(|_| rng.gen()).collect());
+        for st in streams {
+            emit(decomp_event(t, &st, &runs_for(&st)), events, calls);
+        }
+    }
+}
+
+/// Shape of a table, for the run summary only: (EOF code length, EOF all zeros, EOF ends in 1).
+fn eof_shape(h: &Huffman) -> (u32, bool, bool) {
+    let e = h.repr().into_iter().last().unwrap();
+    let n = e.num_bits();
+    ((n), (0..n).all(|i| !e.bit(i)), n > 0 && e.bit(n - 1))
+}
+
 fn rnd_freqs(rng: &mut StdRng, k: usize) -> Vec<u32> {
     // Zero entries chain up at the bottom of the tree (depth = number of zeros, roughly) and so do
     // saturated sums: most families keep every frequency >= 1 and the total below 2^32 so that the
     // table can be built; families 2, 7, 8, 9 aim at trees deeper than 24 (known finding F2).
     let mut f = vec![1u32; 256];
-    match k % 12 {
+    match k % 16 {
         0 => f.iter_mut().for_each(|x| *x = rng.gen_range(1..1000)),
         1 => {}
         2 => f.iter_mut().for_each(|x| *x = 0),
@@ -464,6 +506,28 @@ fn rnd_freqs(rng: &mut StdRng, k: usize) -> Vec<u32> {
                 b = c;
             }
         }
+        12 => {
+            // one dominant symbol over a flat base: the EOF code is all zeros (the endless zeros after
+            // the input then *terminate* the stream)
+            f.iter_mut().for_each(|x| *x = 4);
+            f[rng.gen_range(0..256)] = 1 << 30;
+        }
+        13 => {
+            // exactly one zero frequency: EOF is the right sibling of that symbol (code ends in 1)
+            f.iter_mut().for_each(|x| *x = rng.gen_range(2..1000));
+            f[rng.gen_range(0..256)] = 0;
+        }
+        14 => {
+            // EOF as deep as possible: three zeros below it and a geometric head above
+            f.iter_mut().for_each(|x| *x = rng.gen_range(1..4));
+            for _ in 0..3 {
+                f[rng.gen_range(0..256)] = 0;
+            }
+            for i in 0..10 {
+                f[(i * 13 + k) % 256] = 2048 << i;
+            }
+        }
+        15 => f.iter_mut().for_each(|x| *x = 2),                                     // flat, EOF alone is rarer
         10 => {
             // a few zeros (a short chain at the bottom) and one dominant symbol, like the built-in table
             f.iter_mut().for_each(|x| *x = rng.gen_range(1..5000));
@@ -496,19 +560,30 @@ fn drive(freq_file: &str, seed: u64, cases: usize, maxlen: usize, tables: usize,
     writeln!(out, "{}", tev).unwrap();
     events += 1;
     drive_table(&t, &mut rng, cases, maxlen, &mut out, &mut events, &mut calls);
+    drive_table_systematic(&t, &mut rng, &mut out, &mut events, &mut calls);
     let mut panicked = 0;
+    let (mut eof_zero, mut eof_one, mut eof_min, mut eof_max) = (0, 0, 99u32, 0u32);
     for k in 0..tables {
         let f = rnd_freqs(&mut rng, k);
         let (t, tev) = table_freq(&f);
         writeln!(out, "{}", tev).unwrap();
         events += 1;
         match t {
-            Some(t) => drive_table(&t, &mut rng, 3, maxlen.min(256), &mut out, &mut events, &mut calls),
+            Some(t) => {
+                let (n, z, o) = eof_shape(&t.h);
+                eof_zero += z as u32;
+                eof_one += o as u32;
+                eof_min = eof_min.min(n);
+                eof_max = eof_max.max(n);
+                drive_table(&t, &mut rng, 2, maxlen.min(256), &mut out, &mut events, &mut calls);
+                drive_table_systematic(&t, &mut rng, &mut out, &mut events, &mut calls);
+            }
             None => panicked += 1,
         }
     }
     out.flush().unwrap();
-    println!("SUMMARY {}", json!({"events": events, "calls": calls, "cases": cases, "tables": tables, "tables_panicked": panicked, "reference_linked": linked}));
+    println!("SUMMARY {}", json!({"events": events, "calls": calls, "cases": cases, "tables": tables, "tables_panicked": panicked, "tables_eof_all_zero": eof_zero,
+        "tables_eof_ends_in_one": eof_one, "eof_len_min": eof_min, "eof_len_max": eof_max, "reference_linked": linked}));
 }
 
 fn rerun(freq_file: &str, inp: &str, outp: &str) {
